@@ -96,15 +96,77 @@ Proof.
   rewrite !Z.sub_0_r. reflexivity.
 Qed.
 
-Definition start_or_0 (start : option PrimFloat.float) : PrimFloat.float :=
-  match start with Some a => a | None => 0%float end.
-
 Definition limit_offset (fs : PrimFloat.float) (start : option PrimFloat.float) (reset : bool) : Z :=
-  if reset then F2Z_round (fs * match start with Some a => a | None => 0%float end)%float else 0%Z.
+  if reset then F2Z_round (fs * start_or_0 start)%float else 0%Z.
+
+Lemma offset_of_ok (x : PrimFloat.float) (z : Z) :
+  offset_of x = Ok z <-> PrimFloat.is_finite x = true /\ z = F2Z_round x.
+Proof.
+  unfold offset_of, PrimFloat.is_finite.
+  destruct (PrimFloat.is_nan x); cbn [orb negb].
+  - split; [intros H; discriminate H|intros (H & _); discriminate H].
+  - destruct (PrimFloat.is_infinity x); cbn [negb].
+    + split; [intros H; discriminate H|intros (H & _); discriminate H].
+    + split.
+      * intros H. injection H as H. split; [reflexivity|symmetry; exact H].
+      * intros (_ & H). rewrite H. reflexivity.
+Qed.
 
 Section RowsProofs.
 Context {X : Type}.
 Notation wrowX := (@wrow X).
+
+(** everything about limit_df_with, whichever sampling-rate test and row test it is instantiated with *)
+Lemma limit_df_with_ok fsok keep (rows : list wrowX) fs start stop reset out :
+  limit_df_with fsok keep rows fs start stop reset = Ok out <->
+  fsok fs = true /\ limits_ok start stop = true /\
+  (reset = true -> PrimFloat.is_finite (fs * start_or_0 start)%float = true) /\
+  out = map (fun r => (shift_srow (limit_offset fs start reset) (fst r), snd r)) (filter (keep fs start stop) rows).
+Proof.
+  unfold limit_df_with, limit_offset.
+  destruct (fsok fs); cbn [negb].
+  2:{ split; [intros H; discriminate H|intros (H & _); discriminate H]. }
+  destruct (limits_ok start stop); cbn [negb].
+  2:{ split; [intros H; discriminate H|intros (_ & H & _); discriminate H]. }
+  cbv zeta. destruct reset; cbv iota.
+  - destruct (offset_of (fs * start_or_0 start)%float) as [off|e] eqn:Hoff.
+    + apply offset_of_ok in Hoff. destruct Hoff as (Hfin & Hoff). subst off. split.
+      * intros H. injection H as H. subst out. repeat split. intros _. exact Hfin.
+      * intros (_ & _ & _ & H). subst out. reflexivity.
+    + split; [intros H; discriminate H|].
+      intros (_ & _ & Hfin & _). specialize (Hfin eq_refl).
+      assert (Hc : offset_of (fs * start_or_0 start)%float = Ok (F2Z_round (fs * start_or_0 start)%float)).
+      { apply offset_of_ok. split; [exact Hfin|reflexivity]. }
+      rewrite Hc in Hoff. discriminate Hoff.
+  - assert (Hid : map (fun r : srow * X => (shift_srow 0 (fst r), snd r)) (filter (keep fs start stop) rows)
+                  = filter (keep fs start stop) rows).
+    { apply map_id_ext. intros [s x]. cbn [fst snd]. rewrite shift_srow_0. reflexivity. }
+    rewrite Hid. split.
+    + intros H. injection H as H. subst out. repeat split. intros H. discriminate H.
+    + intros (_ & _ & _ & H). subst out. reflexivity.
+Qed.
+
+Lemma limit_df_with_err fsok keep (rows : list wrowX) fs start stop reset e :
+  limit_df_with fsok keep rows fs start stop reset = Err e ->
+  (e = EValue /\ (fsok fs = false \/ limits_ok start stop = false \/
+                  (reset = true /\ PrimFloat.is_nan (fs * start_or_0 start)%float = true))) \/
+  (e = EOther /\ fsok fs = true /\ limits_ok start stop = true /\ reset = true /\
+   PrimFloat.is_infinity (fs * start_or_0 start)%float = true).
+Proof.
+  unfold limit_df_with.
+  destruct (fsok fs); cbn [negb].
+  2:{ intros H. injection H as H. left. split; [symmetry; exact H|left; reflexivity]. }
+  destruct (limits_ok start stop); cbn [negb].
+  2:{ intros H. injection H as H. left. split; [symmetry; exact H|right; left; reflexivity]. }
+  cbv zeta. destruct reset; [|intros H; discriminate H].
+  unfold offset_of.
+  destruct (PrimFloat.is_nan (fs * start_or_0 start)%float) eqn:Hnan.
+  - intros H. injection H as H. left. split; [symmetry; exact H|].
+    right. right. split; reflexivity.
+  - destruct (PrimFloat.is_infinity (fs * start_or_0 start)%float) eqn:Hinf.
+    + intros H. injection H as H. right. repeat split. symmetry. exact H.
+    + intros H. discriminate H.
+Qed.
 
 Theorem limit_df_spec (rows : list wrowX) fs start stop reset out :
   limit_df rows fs start stop reset = Ok out ->
@@ -113,14 +175,8 @@ Theorem limit_df_spec (rows : list wrowX) fs start stop reset out :
              else 0%Z in
   out = map (fun r => (shift_srow off (fst r), snd r)) (filter (keep_row fs start stop) rows).
 Proof.
-  intros H. cbv zeta. unfold limit_df in H.
-  destruct (negb (in_range fs 0 infinity)) eqn:Hfs; [discriminate H|].
-  destruct (negb (limits_ok start stop)) eqn:Hlim; [discriminate H|].
-  cbv zeta in H. injection H as H. subst out.
-  destruct reset.
-  - reflexivity.
-  - symmetry. apply map_id_ext. intros [s x]. cbn [fst snd].
-    rewrite shift_srow_0. reflexivity.
+  intros H. cbv zeta. unfold limit_df in H. apply limit_df_with_ok in H.
+  destruct H as (_ & _ & _ & H). exact H.
 Qed.
 
 (** the output is a sub-list of the input, in the original order, up to the shift of the
@@ -134,7 +190,7 @@ Theorem limit_df_sublist (rows : list wrowX) fs start stop reset out :
   length out <= length rows.
 Proof.
   intros H. apply limit_df_spec in H. cbv zeta in H.
-  fold (limit_offset fs start reset) in H. subst out.
+  fold (start_or_0 start) in H. fold (limit_offset fs start reset) in H. subst out.
   rewrite !map_map. cbn [fst snd]. repeat split.
   - apply map_ext. intros [s x]. cbn [fst]. destruct s as [a b c e f g].
     unfold shift_srow. cbn [s_next s_last s_center s_zx_decay s_zx_rise s_last_zx].
@@ -163,7 +219,7 @@ Theorem limit_df_uniform_shift (rows : list wrowX) fs start stop reset out :
       s_last_zx (fst o) = (s_last_zx (fst r) - off)%Z.
 Proof.
   intros H off o Ho. apply limit_df_spec in H. cbv zeta in H.
-  fold (limit_offset fs start reset) in H. fold off in H. subst out.
+  fold (start_or_0 start) in H. fold (limit_offset fs start reset) in H. fold off in H. subst out.
   apply in_map_iff in Ho. destruct Ho as (r & Hr & Hin).
   apply filter_In in Hin. destruct Hin as (Hin & Hk).
   exists r. subst o. cbn [fst snd]. unfold shift_srow.
@@ -179,7 +235,7 @@ Theorem limit_df_nth (rows : list wrowX) fs start stop reset out i d :
   nth i out d = (shift_srow off (fst k), snd k).
 Proof.
   intros H Hi off k. apply limit_df_spec in H. cbv zeta in H.
-  fold (limit_offset fs start reset) in H. fold off in H. subst out.
+  fold (start_or_0 start) in H. fold (limit_offset fs start reset) in H. fold off in H. subst out.
   rewrite map_length in Hi.
   rewrite (nth_map_lt _ _ i d d Hi). reflexivity.
 Qed.
@@ -190,7 +246,7 @@ Theorem limit_df_complete (rows : list wrowX) fs start stop reset out r :
   In (shift_srow (limit_offset fs start reset) (fst r), snd r) out.
 Proof.
   intros H Hin Hk. apply limit_df_spec in H. cbv zeta in H.
-  fold (limit_offset fs start reset) in H. subst out.
+  fold (start_or_0 start) in H. fold (limit_offset fs start reset) in H. subst out.
   apply in_map_iff. exists r. split; [reflexivity|].
   apply filter_In. split; assumption.
 Qed.
@@ -198,37 +254,76 @@ Qed.
 (* ------------------------------------------------------------------------------------------ *)
 (** * W1: when limit_df succeeds *)
 
+Lemma Prim2B_zero : Prim2B 0%float = B754_zero false.
+Proof. change 0%float with zero. rewrite zero_equiv, Prim2B_B2Prim. reflexivity. Qed.
+Lemma Prim2B_infinity : Prim2B infinity = B754_infinity false.
+Proof. rewrite infinity_equiv, Prim2B_B2Prim. reflexivity. Qed.
+
+(** the sampling-rate test as a predicate: fs is accepted iff 0 < fs (finite or +infinity) or fs is a NaN
+    (check_param_range lets a NaN through, and NaN == 0 is false); zeros of both signs, negative numbers and
+    -infinity are rejected *)
+Theorem limit_fs_ok_iff (fs : PrimFloat.float) :
+  limit_fs_ok fs = true <-> (0 <? fs)%float = true \/ PrimFloat.is_nan fs = true.
+Proof.
+  unfold limit_fs_ok, in_range. rewrite !ltb_equiv, eqb_equiv, is_nan_equiv, Prim2B_zero, Prim2B_infinity.
+  destruct (Prim2B fs) as [s|s| |s m e He]; try destruct s; cbn; intuition congruence.
+Qed.
+
+Theorem limit_fs_ok_zero : limit_fs_ok 0%float = false /\ limit_fs_ok (-0)%float = false /\
+  limit_fs_ok_legacy 0%float = true /\ limit_fs_ok_legacy (-0)%float = true.
+Proof. repeat split; reflexivity. Qed.
+
+Theorem limit_fs_ok_finite_pos (fs : PrimFloat.float) : finite fs = true -> (limit_fs_ok fs = true <-> (0 < FR fs)%R).
+Proof.
+  intros Ffs. rewrite limit_fs_ok_iff. rewrite (finite_not_nan fs Ffs).
+  rewrite (ltb_R 0%float fs finite_zero Ffs), FR_zero.
+  case Rlt_bool_spec; intros H; split.
+  - intros _. exact H.
+  - intros _. left. reflexivity.
+  - intros [H'|H']; discriminate H'.
+  - intros H'. lra.
+Qed.
+
 Theorem limit_df_ok_iff (rows : list wrowX) fs start stop reset :
   (exists out, limit_df rows fs start stop reset = Ok out) <->
-  in_range fs 0 infinity = true /\ limits_ok start stop = true.
+  ((0 <? fs)%float = true \/ PrimFloat.is_nan fs = true) /\ limits_ok start stop = true /\
+  (reset = true -> PrimFloat.is_finite (fs * start_or_0 start)%float = true).
 Proof.
-  unfold limit_df. split.
-  - intros (out & H).
-    destruct (in_range fs 0 infinity) eqn:Hfs; cbn [negb] in H; [|discriminate H].
-    destruct (limits_ok start stop) eqn:Hlim; cbn [negb] in H; [|discriminate H].
-    split; reflexivity.
-  - intros (Hfs & Hlim). rewrite Hfs, Hlim. cbn [negb]. eexists. reflexivity.
+  rewrite <- limit_fs_ok_iff. unfold limit_df. split.
+  - intros (out & H). apply limit_df_with_ok in H. destruct H as (H1 & H2 & H3 & _).
+    repeat split; assumption.
+  - intros (H1 & H2 & H3). eexists. apply limit_df_with_ok. repeat split; try assumption.
 Qed.
 
 Theorem limit_df_err (rows : list wrowX) fs start stop reset e :
-  limit_df rows fs start stop reset = Err e -> e = EValue.
+  limit_df rows fs start stop reset = Err e -> e = EValue \/ e = EOther.
 Proof.
-  unfold limit_df. intros H.
-  destruct (negb (in_range fs 0 infinity)) eqn:Hfs; [injection H as H; symmetry; exact H|].
-  destruct (negb (limits_ok start stop)) eqn:Hlim; [injection H as H; symmetry; exact H|].
-  discriminate H.
+  unfold limit_df. intros H. apply limit_df_with_err in H.
+  destruct H as [(H & _)|(H & _)]; [left|right]; exact H.
 Qed.
 
-Theorem limit_df_err_iff (rows : list wrowX) fs start stop reset :
-  limit_df rows fs start stop reset = Err EValue <->
-  in_range fs 0 infinity = false \/ limits_ok start stop = false.
+(** an invalid sampling rate or invalid limits: ValueError *)
+Theorem limit_df_err_invalid (rows : list wrowX) fs start stop reset :
+  limit_fs_ok fs = false \/ limits_ok start stop = false ->
+  limit_df rows fs start stop reset = Err EValue.
 Proof.
-  unfold limit_df.
-  destruct (in_range fs 0 infinity) eqn:Hfs; cbn [negb].
-  - destruct (limits_ok start stop) eqn:Hlim; cbn [negb].
-    + split; [intros H; discriminate H|intros [H|H]; discriminate H].
-    + split; [intros _; right; reflexivity|reflexivity].
-  - split; [intros _; left; reflexivity|reflexivity].
+  unfold limit_df, limit_df_with. intros [H|H].
+  - rewrite H. reflexivity.
+  - rewrite H. destruct (limit_fs_ok fs); reflexivity.
+Qed.
+
+(** the pre-repair model accepted a sampling rate of exactly 0 (F17) *)
+Theorem limit_df_legacy_accepts_fs_zero (rows : list wrowX) start stop :
+  limits_ok start stop = true ->
+  (exists out, limit_df_legacy rows 0%float start stop false = Ok out) /\
+  limit_df rows 0%float start stop false = Err EValue /\
+  limit_df rows (-0)%float start stop false = Err EValue.
+Proof.
+  intros Hlim. split; [|split].
+  - eexists. unfold limit_df_legacy. apply limit_df_with_ok.
+    repeat split; [exact Hlim|intros H; discriminate H].
+  - apply limit_df_err_invalid. left. reflexivity.
+  - apply limit_df_err_invalid. left. reflexivity.
 Qed.
 
 End RowsProofs.
@@ -467,27 +562,172 @@ Qed.
 (* ------------------------------------------------------------------------------------------ *)
 (** * W3: which rows are kept *)
 
+(** ** binary64 facts about the time stamps k / fs *)
+
+#[local] Instance Hprec53' : FLX.Prec_gt_0 53 := eq_refl _.
+#[local] Instance Hmax1024' : Prec_lt_emax 53 1024 := eq_refl _.
+#[local] Instance Vexp' : Generic_fmt.Valid_exp (SpecFloat.fexp 53 1024) := fexp_correct 53 1024 Hprec53'.
+
+(* a division whose rounded quotient is below 2^1024 does not overflow *)
+Lemma div_FR_bounded (x y : PrimFloat.float) : finite x = true -> finite y = true -> FR y <> 0%R ->
+  (Rabs (rnd64 (FR x / FR y)) < bpow radix2 1024)%R ->
+  finite (x / y)%float = true /\ FR (x / y)%float = rnd64 (FR x / FR y).
+Proof.
+  intros Fx Fy Hy Hb.
+  generalize (Bdiv_correct 53 1024 eq_refl eq_refl mode_NE (Prim2B x) (Prim2B y) Hy).
+  fold (FR x) (FR y). fold (rnd64 (FR x / FR y)).
+  rewrite Rlt_bool_true by exact Hb.
+  intros (Hv & Hfin & _). split.
+  - unfold finite. rewrite div_equiv. etransitivity; [exact Hfin|exact Fx].
+  - unfold FR. rewrite div_equiv. exact Hv.
+Qed.
+
+(* ... and a division with a finite result is the correctly rounded real quotient *)
+Lemma div_FR_fin (x y : PrimFloat.float) : finite x = true -> finite y = true -> FR y <> 0%R ->
+  finite (x / y)%float = true -> FR (x / y)%float = rnd64 (FR x / FR y).
+Proof.
+  intros Fx Fy Hy Fq.
+  generalize (Bdiv_correct 53 1024 eq_refl eq_refl mode_NE (Prim2B x) (Prim2B y) Hy).
+  fold (FR x) (FR y). fold (rnd64 (FR x / FR y)).
+  destruct (Rlt_bool _ _).
+  - intros (Hv & _). unfold FR. rewrite div_equiv. exact Hv.
+  - intros Hov. exfalso.
+    assert (Hnf : forall q : binary_float 53 1024,
+              B2SF q = binary_overflow 53 1024 mode_NE (xorb (Bsign (Prim2B x)) (Bsign (Prim2B y))) ->
+              is_finite q = false).
+    { intros q Hq. destruct q as [s|s| |s m e He]; try reflexivity; discriminate Hq. }
+    apply Hnf in Hov. unfold finite in Fq. rewrite div_equiv in Fq.
+    assert (E : true = false) by (rewrite <- Fq; exact Hov). discriminate E.
+Qed.
+
+(** the time stamp of sample k: FR (Z2F k / fs) = fl(k / fs) *)
+Lemma time_FR (fs : PrimFloat.float) (k : Z) :
+  finite fs = true -> (0 < FR fs)%R -> (Z.abs k < 2 ^ 53)%Z ->
+  finite (FloatFacts.Z2F k / fs)%float = true ->
+  FR (FloatFacts.Z2F k / fs)%float = rnd64 (IZR k / FR fs).
+Proof.
+  intros Ffs Hfs Hk Fq. destruct (Z2F_exact k Hk) as (Fk & Vk).
+  rewrite <- Vk. apply div_FR_fin; try assumption. lra.
+Qed.
+
+(** the rounding error of a time stamp is below one sample period: |fl(k / fs) - k / fs| < 1 / fs for
+    |k| < 2^53 (relative error 2^-53 in the normal range, absolute error 2^-1075 below it, fs < 2^1024) *)
+Lemma time_error (fs : PrimFloat.float) (k : Z) :
+  finite fs = true -> (0 < FR fs)%R -> (Z.abs k < 2 ^ 53)%Z ->
+  (Rabs (rnd64 (IZR k / FR fs) - IZR k / FR fs) < / FR fs)%R.
+Proof.
+  intros Ffs Hfs Hk.
+  assert (Hinv : (0 < / FR fs)%R) by (apply Rinv_0_lt_compat, Hfs).
+  set (x := (IZR k / FR fs)%R).
+  assert (Hax : Rabs x = (Rabs (IZR k) * / FR fs)%R).
+  { unfold x, Rdiv. rewrite Rabs_mult, (Rabs_pos_eq (/ FR fs)) by lra. reflexivity. }
+  assert (Hk' : (Rabs (IZR k) < IZR (2 ^ 53))%R).
+  { rewrite <- abs_IZR. apply IZR_lt. exact Hk. }
+  assert (Hhalf : (Rabs (rnd64 x - x) <= / 2 * Ulp.ulp radix2 (SpecFloat.fexp 53 1024) x)%R).
+  { unfold rnd64. apply Ulp.error_le_half_ulp. exact Vexp'. }
+  change (SpecFloat.fexp 53 1024) with (FLT_exp (-1074) 53) in Hhalf.
+  destruct (Rle_or_lt (bpow radix2 (-1074 + 53 - 1)) (Rabs x)) as [Hnorm|Hsub].
+  - assert (Hu := ulp_FLT_le radix2 (-1074) 53 x Hnorm).
+    change (bpow radix2 (1 - 53)) with (/ IZR (2 ^ 52))%R in Hu.
+    assert (P52 : (0 < IZR (2 ^ 52))%R) by (apply IZR_lt; reflexivity).
+    assert (E53 : IZR (2 ^ 53) = (2 * IZR (2 ^ 52))%R) by (rewrite <- mult_IZR; reflexivity).
+    rewrite Hax in Hu.
+    apply Rle_lt_trans with (1 := Hhalf).
+    apply Rle_lt_trans with (/ 2 * (Rabs (IZR k) * / FR fs * / IZR (2 ^ 52)))%R; [lra|].
+    replace (/ 2 * (Rabs (IZR k) * / FR fs * / IZR (2 ^ 52)))%R
+      with ((Rabs (IZR k) * / IZR (2 ^ 53)) * / FR fs)%R by (rewrite E53; field; split; lra).
+    rewrite <- (Rmult_1_l (/ FR fs)) at 2. apply Rmult_lt_compat_r; [exact Hinv|].
+    assert (P53 : (0 < IZR (2 ^ 53))%R) by lra.
+    apply Rmult_lt_reg_r with (IZR (2 ^ 53)); [exact P53|].
+    rewrite Rmult_assoc, Rinv_l by lra. lra.
+  - assert (Hu : Ulp.ulp radix2 (FLT_exp (-1074) 53) x = bpow radix2 (-1074)).
+    { apply (ulp_FLT_small radix2 (-1074) 53 x). apply Rlt_trans with (1 := Hsub). apply bpow_lt. lia. }
+    rewrite Hu in Hhalf.
+    assert (Bfs : (Rabs (FR fs) < bpow radix2 1024)%R) by apply abs_B2R_lt_emax.
+    rewrite Rabs_pos_eq in Bfs by lra.
+    assert (Hlow : (bpow radix2 (-1024) < / FR fs)%R).
+    { replace (bpow radix2 (-1024)) with (/ bpow radix2 1024)%R by (symmetry; apply (bpow_opp radix2 1024)). apply Rinv_lt_contravar; [|exact Bfs].
+      apply Rmult_lt_0_compat; [exact Hfs|apply bpow_gt_0]. }
+    assert (Hb : (bpow radix2 (-1074) < bpow radix2 (-1024))%R) by (apply bpow_lt; lia).
+    assert (Hp : (0 < bpow radix2 (-1074))%R) by apply bpow_gt_0.
+    lra.
+Qed.
+
+(** time stamps are monotone in the sample index: k <= k' -> fl(k / fs) <= fl(k' / fs) *)
+Lemma time_le (fs : PrimFloat.float) (k k' : Z) :
+  finite fs = true -> (0 < FR fs)%R -> (Z.abs k < 2 ^ 53)%Z -> (Z.abs k' < 2 ^ 53)%Z ->
+  finite (FloatFacts.Z2F k / fs)%float = true -> finite (FloatFacts.Z2F k' / fs)%float = true ->
+  (k <= k')%Z ->
+  (FloatFacts.Z2F k / fs <=? FloatFacts.Z2F k' / fs)%float = true.
+Proof.
+  intros Ffs Hfs Hk Hk' Fq Fq' Hle.
+  rewrite (leb_R _ _ Fq Fq'), (time_FR fs k Ffs Hfs Hk Fq), (time_FR fs k' Ffs Hfs Hk' Fq').
+  apply Rle_bool_true. apply rnd64_le.
+  apply Rmult_le_compat_r; [apply Rlt_le, Rinv_0_lt_compat, Hfs|]. apply IZR_le. exact Hle.
+Qed.
+
+(** a time stamp between two finite time stamps is finite *)
+Lemma time_finite_between (fs : PrimFloat.float) (k0 k k1 : Z) :
+  finite fs = true -> (0 < FR fs)%R ->
+  (Z.abs k0 < 2 ^ 53)%Z -> (Z.abs k1 < 2 ^ 53)%Z ->
+  finite (FloatFacts.Z2F k0 / fs)%float = true -> finite (FloatFacts.Z2F k1 / fs)%float = true ->
+  (k0 <= k <= k1)%Z ->
+  finite (FloatFacts.Z2F k / fs)%float = true.
+Proof.
+  intros Ffs Hfs Hk0 Hk1 F0 F1 Hk.
+  assert (Hka : (Z.abs k < 2 ^ 53)%Z) by lia.
+  destruct (Z2F_exact k Hka) as (Fk & Vk).
+  assert (Hinv : (0 <= / FR fs)%R) by (apply Rlt_le, Rinv_0_lt_compat, Hfs).
+  assert (Hlo : (FR (FloatFacts.Z2F k0 / fs)%float <= rnd64 (IZR k / FR fs))%R).
+  { rewrite (time_FR fs k0 Ffs Hfs Hk0 F0). apply rnd64_le.
+    apply Rmult_le_compat_r; [exact Hinv|]. apply IZR_le. lia. }
+  assert (Hhi : (rnd64 (IZR k / FR fs) <= FR (FloatFacts.Z2F k1 / fs)%float)%R).
+  { rewrite (time_FR fs k1 Ffs Hfs Hk1 F1). apply rnd64_le.
+    apply Rmult_le_compat_r; [exact Hinv|]. apply IZR_le. lia. }
+  assert (B0 : (Rabs (FR (FloatFacts.Z2F k0 / fs)%float) < bpow radix2 1024)%R) by apply abs_B2R_lt_emax.
+  assert (B1 : (Rabs (FR (FloatFacts.Z2F k1 / fs)%float) < bpow radix2 1024)%R) by apply abs_B2R_lt_emax.
+  apply Rabs_def2 in B0. apply Rabs_def2 in B1.
+  destruct (div_FR_bounded (FloatFacts.Z2F k) fs Fk Ffs) as (Fq & _).
+  - lra.
+  - rewrite Vk. apply Rabs_def1; lra.
+  - exact Fq.
+Qed.
+
 Section KeepProofs.
 Context {X : Type}.
 Notation wrowX := (@wrow X).
 
+(** the row test, clause by clause (binary64 comparisons of the time stamps with the limits) *)
 Theorem keep_row_iff fs start stop (r : wrowX) :
   keep_row fs start stop r = true <->
-  ((match start with Some a => a | None => 0%float end * fs) <=? FloatBase.Z2F (s_last (fst r)))%float = true /\
+  (start_or_0 start <=? FloatBase.Z2F (s_last (fst r)) / fs)%float = true /\
+  (match stop with
+   | Some b => (FloatBase.Z2F (s_next (fst r)) / fs <=? b)%float = true
+   | None => True
+   end).
+Proof.
+  unfold keep_row. rewrite andb_true_iff.
+  destruct stop as [b|]; [reflexivity|].
+  split; intros (H1 & _); split; [exact H1|exact I|exact H1|reflexivity].
+Qed.
+
+Theorem keep_row_legacy_iff fs start stop (r : wrowX) :
+  keep_row_legacy fs start stop r = true <->
+  ((start_or_0 start * fs) <=? FloatBase.Z2F (s_last (fst r)))%float = true /\
   (match stop with
    | Some b => (FloatBase.Z2F (s_next (fst r)) <=? (b * fs))%float = true
    | None => True
    end).
 Proof.
-  unfold keep_row. cbv zeta. rewrite andb_true_iff.
+  unfold keep_row_legacy. rewrite andb_true_iff.
   destruct stop as [b|]; [reflexivity|].
   split; intros (H1 & _); split; [exact H1|exact I|exact H1|reflexivity].
 Qed.
 
-(** every cycle lying entirely inside [start, stop] is kept *)
+(** every cycle whose time stamps lie inside [start, stop] is kept (binary64 order) *)
 Corollary inside_kept fs start stop (r : wrowX) :
-  ((start_or_0 start * fs) <=? FloatBase.Z2F (s_last (fst r)))%float = true ->
-  (forall b, stop = Some b -> (FloatBase.Z2F (s_next (fst r)) <=? (b * fs))%float = true) ->
+  (start_or_0 start <=? FloatBase.Z2F (s_last (fst r)) / fs)%float = true ->
+  (forall b, stop = Some b -> (FloatBase.Z2F (s_next (fst r)) / fs <=? b)%float = true) ->
   keep_row fs start stop r = true.
 Proof.
   intros H1 H2. apply keep_row_iff. split; [exact H1|].
@@ -518,57 +758,145 @@ Proof.
   rewrite (ltb_leb_incompat x y Fx Fy Hxy) in Hyx. discriminate Hyx.
 Qed.
 
-(** a cycle that ends before the window starts, or starts after the window ends, is dropped
-    (finite limits, sample indices exactly representable; s_last <= s_next suffices) *)
-Theorem outside_not_kept_le fs start stop (r : wrowX) :
-  finite (start_or_0 start * fs)%float = true ->
-  (forall b, stop = Some b -> finite (b * fs)%float = true) ->
-  (Z.abs (s_last (fst r)) < 2 ^ 53)%Z -> (Z.abs (s_next (fst r)) < 2 ^ 53)%Z ->
-  (s_last (fst r) <= s_next (fst r))%Z ->
-  (FloatBase.Z2F (s_next (fst r)) <? (start_or_0 start * fs))%float = true \/
-  (exists b, stop = Some b /\ ((b * fs) <? FloatBase.Z2F (s_last (fst r)))%float = true) ->
-  keep_row fs start stop r = false.
+(** REAL-number reading of "inside": if the exact time of the first sample, last / fs, is not before the
+    (binary64) start and the exact time of the last sample, next / fs, is not after the (binary64) stop, the
+    row is kept.  Rounding the quotient to nearest is monotone and the limits are binary64 numbers
+    themselves, so rounding cannot push an inside cycle out. *)
+Theorem inside_kept_real fs start stop (r : wrowX) :
+  finite fs = true -> (0 < FR fs)%R ->
+  finite (start_or_0 start) = true ->
+  (Z.abs (s_last (fst r)) < 2 ^ 53)%Z ->
+  finite (FloatBase.Z2F (s_last (fst r)) / fs)%float = true ->
+  (FR (start_or_0 start) <= IZR (s_last (fst r)) / FR fs)%R ->
+  (forall b, stop = Some b ->
+     finite b = true /\ (Z.abs (s_next (fst r)) < 2 ^ 53)%Z /\
+     finite (FloatBase.Z2F (s_next (fst r)) / fs)%float = true /\
+     (IZR (s_next (fst r)) / FR fs <= FR b)%R) ->
+  keep_row fs start stop r = true.
 Proof.
-  intros Fa Fb Hl Hn Hln Hout.
+  intros Ffs Hfs Fa Hl Fql Ha Hstop.
   change FloatBase.Z2F with FloatFacts.Z2F in *.
-  assert (FL : finite (FloatFacts.Z2F (s_last (fst r))) = true) by (apply finite_Z2F; exact Hl).
-  assert (FN : finite (FloatFacts.Z2F (s_next (fst r))) = true) by (apply finite_Z2F; exact Hn).
-  assert (HLN : (FloatFacts.Z2F (s_last (fst r)) <=? FloatFacts.Z2F (s_next (fst r)))%float = true).
-  { rewrite (Z2F_leb _ _ Hl Hn). apply Z.leb_le. exact Hln. }
-  unfold keep_row. cbv zeta. fold (start_or_0 start).
-  change FloatBase.Z2F with FloatFacts.Z2F.
-  destruct Hout as [Hbefore|(b & Hstop & Hafter)].
-  - assert (Hlt : (FloatFacts.Z2F (s_last (fst r)) <? start_or_0 start * fs)%float = true).
-    { apply (leb_ltb_trans _ (FloatFacts.Z2F (s_next (fst r)))); assumption. }
-    rewrite (ltb_leb_incompat _ _ FL Fa Hlt). reflexivity.
-  - subst stop. specialize (Fb b eq_refl).
-    assert (Hlt : (b * fs <? FloatFacts.Z2F (s_next (fst r)))%float = true).
-    { apply (ltb_leb_trans _ (FloatFacts.Z2F (s_last (fst r)))); assumption. }
-    rewrite (ltb_leb_incompat _ _ Fb FN Hlt). apply andb_false_r.
+  apply inside_kept; change FloatBase.Z2F with FloatFacts.Z2F.
+  - rewrite (leb_R _ _ Fa Fql), (time_FR fs _ Ffs Hfs Hl Fql).
+    apply Rle_bool_true. rewrite <- (rnd64_FR (start_or_0 start)). apply rnd64_le. exact Ha.
+  - intros b Hb. destruct (Hstop b Hb) as (Fb & Hn & Fqn & Hnb).
+    rewrite (leb_R _ _ Fqn Fb), (time_FR fs _ Ffs Hfs Hn Fqn).
+    apply Rle_bool_true. rewrite <- (rnd64_FR b). apply rnd64_le. exact Hnb.
 Qed.
 
+(** time-stamp reading: limits taken from the library's own time axis arange(n) / fs.  If start is the time
+    stamp of sample k0, stop the time stamp of sample k1 (both finite) and the cycle spans samples
+    k0 <= last <= next <= k1, the row is kept — whatever (k / fs) * fs rounds to. *)
+Theorem on_grid_limits fs (k0 k1 : Z) (r : wrowX) :
+  finite fs = true -> (0 < FR fs)%R ->
+  (Z.abs k0 < 2 ^ 53)%Z -> (Z.abs k1 < 2 ^ 53)%Z ->
+  finite (FloatBase.Z2F k0 / fs)%float = true -> finite (FloatBase.Z2F k1 / fs)%float = true ->
+  (k0 <= s_last (fst r))%Z -> (s_last (fst r) <= s_next (fst r))%Z -> (s_next (fst r) <= k1)%Z ->
+  keep_row fs (Some (FloatBase.Z2F k0 / fs)%float) (Some (FloatBase.Z2F k1 / fs)%float) r = true.
+Proof.
+  intros Ffs Hfs Hk0 Hk1 F0 F1 H0l Hln Hn1.
+  change FloatBase.Z2F with FloatFacts.Z2F in *.
+  assert (Hl : (Z.abs (s_last (fst r)) < 2 ^ 53)%Z) by lia.
+  assert (Hn : (Z.abs (s_next (fst r)) < 2 ^ 53)%Z) by lia.
+  assert (Fl : finite (FloatFacts.Z2F (s_last (fst r)) / fs)%float = true).
+  { apply (time_finite_between fs k0 _ k1); try assumption. lia. }
+  assert (Fn : finite (FloatFacts.Z2F (s_next (fst r)) / fs)%float = true).
+  { apply (time_finite_between fs k0 _ k1); try assumption. lia. }
+  apply inside_kept; change FloatBase.Z2F with FloatFacts.Z2F; cbn [start_or_0].
+  - apply time_le; assumption.
+  - intros b Hb. injection Hb as Hb. subst b. apply time_le; assumption.
+Qed.
+
+(** the same with a start only *)
+Theorem on_grid_start fs (k0 : Z) (r : wrowX) :
+  finite fs = true -> (0 < FR fs)%R ->
+  (Z.abs k0 < 2 ^ 53)%Z -> (Z.abs (s_last (fst r)) < 2 ^ 53)%Z ->
+  finite (FloatBase.Z2F k0 / fs)%float = true -> finite (FloatBase.Z2F (s_last (fst r)) / fs)%float = true ->
+  (k0 <= s_last (fst r))%Z ->
+  keep_row fs (Some (FloatBase.Z2F k0 / fs)%float) None r = true.
+Proof.
+  intros Ffs Hfs Hk0 Hl F0 Fl H0l.
+  change FloatBase.Z2F with FloatFacts.Z2F in *.
+  apply inside_kept; change FloatBase.Z2F with FloatFacts.Z2F; cbn [start_or_0].
+  - apply time_le; assumption.
+  - intros b Hb. discriminate Hb.
+Qed.
+
+(** binary64-order reading of "outside": a cycle whose last time stamp is before start, or whose first time
+    stamp is after stop, is dropped (s_last <= s_next suffices) *)
 Theorem outside_not_kept fs start stop (r : wrowX) :
-  finite (start_or_0 start * fs)%float = true ->
-  (forall b, stop = Some b -> finite (b * fs)%float = true) ->
+  finite fs = true -> (0 < FR fs)%R ->
   (Z.abs (s_last (fst r)) < 2 ^ 53)%Z -> (Z.abs (s_next (fst r)) < 2 ^ 53)%Z ->
-  (s_last (fst r) < s_next (fst r))%Z ->
-  (FloatBase.Z2F (s_next (fst r)) <? (start_or_0 start * fs))%float = true \/
-  (exists b, stop = Some b /\ ((b * fs) <? FloatBase.Z2F (s_last (fst r)))%float = true) ->
+  (s_last (fst r) <= s_next (fst r))%Z ->
+  finite (FloatBase.Z2F (s_last (fst r)) / fs)%float = true ->
+  finite (FloatBase.Z2F (s_next (fst r)) / fs)%float = true ->
+  (finite (start_or_0 start) = true /\
+   (FloatBase.Z2F (s_next (fst r)) / fs <? start_or_0 start)%float = true) \/
+  (exists b, stop = Some b /\ finite b = true /\ (b <? FloatBase.Z2F (s_last (fst r)) / fs)%float = true) ->
   keep_row fs start stop r = false.
 Proof.
-  intros Fa Fb Hl Hn Hln Hout.
-  apply outside_not_kept_le; try assumption. lia.
+  intros Ffs Hfs Hl Hn Hln Fl Fn Hout.
+  change FloatBase.Z2F with FloatFacts.Z2F in *.
+  assert (HLN : (FloatFacts.Z2F (s_last (fst r)) / fs <=? FloatFacts.Z2F (s_next (fst r)) / fs)%float = true)
+    by (apply time_le; assumption).
+  unfold keep_row. change FloatBase.Z2F with FloatFacts.Z2F.
+  destruct Hout as [(Fa & Hbefore)|(b & Hstop & Fb & Hafter)].
+  - assert (Hlt : (FloatFacts.Z2F (s_last (fst r)) / fs <? start_or_0 start)%float = true).
+    { apply (leb_ltb_trans _ (FloatFacts.Z2F (s_next (fst r)) / fs)%float); assumption. }
+    rewrite (ltb_leb_incompat _ _ Fl Fa Hlt). reflexivity.
+  - subst stop.
+    assert (Hlt : (b <? FloatFacts.Z2F (s_next (fst r)) / fs)%float = true).
+    { apply (ltb_leb_trans _ (FloatFacts.Z2F (s_last (fst r)) / fs)%float); assumption. }
+    rewrite (ltb_leb_incompat _ _ Fb Fn Hlt). apply andb_false_r.
+Qed.
+
+(** REAL-number reading of "outside": a cycle (last < next) whose last sample lies before start in exact
+    arithmetic, next / fs < start, is dropped; symmetrically a cycle whose first sample lies after stop,
+    stop < last / fs.  The test looks at the ROUNDED time stamp fl(last / fs) of the first sample, which lies
+    a whole sample period below next / fs; the rounding error of a time stamp k / fs with |k| < 2^53 is below
+    one sample period (time_error: sample periods are resolvable wherever sample indices are exact in
+    binary64), so fl(last / fs) < next / fs < start.  This is where |sample index| < 2^53 and last < next
+    (a cycle has at least two samples) are needed; start and stop may be any finite binary64 numbers. *)
+Theorem outside_not_kept_real fs start stop (r : wrowX) :
+  finite fs = true -> (0 < FR fs)%R ->
+  (Z.abs (s_last (fst r)) < 2 ^ 53)%Z -> (Z.abs (s_next (fst r)) < 2 ^ 53)%Z ->
+  (s_last (fst r) < s_next (fst r))%Z ->
+  (finite (start_or_0 start) = true /\
+   finite (FloatBase.Z2F (s_last (fst r)) / fs)%float = true /\
+   (IZR (s_next (fst r)) / FR fs < FR (start_or_0 start))%R) \/
+  (exists b, stop = Some b /\ finite b = true /\
+   finite (FloatBase.Z2F (s_next (fst r)) / fs)%float = true /\
+   (FR b < IZR (s_last (fst r)) / FR fs)%R) ->
+  keep_row fs start stop r = false.
+Proof.
+  intros Ffs Hfs Hl Hn Hln Hout.
+  change FloatBase.Z2F with FloatFacts.Z2F in *.
+  assert (Hinv : (0 < / FR fs)%R) by (apply Rinv_0_lt_compat, Hfs).
+  assert (Hstep : (IZR (s_last (fst r)) / FR fs + / FR fs <= IZR (s_next (fst r)) / FR fs)%R).
+  { unfold Rdiv. rewrite <- (Rmult_1_l (/ FR fs)) at 2. rewrite <- Rmult_plus_distr_r.
+    apply Rmult_le_compat_r; [lra|]. rewrite <- plus_IZR. apply IZR_le. lia. }
+  unfold keep_row. change FloatBase.Z2F with FloatFacts.Z2F.
+  destruct Hout as [(Fa & Fql & Hbefore)|(b & Hstop & Fb & Fqn & Hafter)].
+  - assert (Herr := time_error fs _ Ffs Hfs Hl). apply Rabs_def2 in Herr.
+    assert (Hlt : (FloatFacts.Z2F (s_last (fst r)) / fs <? start_or_0 start)%float = true).
+    { rewrite (ltb_R _ _ Fql Fa), (time_FR fs _ Ffs Hfs Hl Fql). apply Rlt_bool_true. lra. }
+    rewrite (ltb_leb_incompat _ _ Fql Fa Hlt). reflexivity.
+  - subst stop.
+    assert (Herr := time_error fs _ Ffs Hfs Hn). apply Rabs_def2 in Herr.
+    assert (Hlt : (b <? FloatFacts.Z2F (s_next (fst r)) / fs)%float = true).
+    { rewrite (ltb_R _ _ Fb Fqn), (time_FR fs _ Ffs Hfs Hn Fqn). apply Rlt_bool_true. lra. }
+    rewrite (ltb_leb_incompat _ _ Fb Fqn Hlt). apply andb_false_r.
 Qed.
 
 (** when both limits fall exactly on sample indices A = start * fs and B = stop * fs the
-    selection is the integer one: A <= s_last and s_next <= B *)
-Theorem keep_row_Z fs a b (A B : Z) (r : wrowX) :
+    pre-repair selection was the integer one: A <= s_last and s_next <= B *)
+Theorem keep_row_legacy_Z fs a b (A B : Z) (r : wrowX) :
   (a * fs)%float = FloatBase.Z2F A -> (b * fs)%float = FloatBase.Z2F B ->
   (Z.abs A < 2 ^ 53)%Z -> (Z.abs B < 2 ^ 53)%Z ->
   (Z.abs (s_last (fst r)) < 2 ^ 53)%Z -> (Z.abs (s_next (fst r)) < 2 ^ 53)%Z ->
-  keep_row fs (Some a) (Some b) r = ((A <=? s_last (fst r))%Z && (s_next (fst r) <=? B)%Z).
+  keep_row_legacy fs (Some a) (Some b) r = ((A <=? s_last (fst r))%Z && (s_next (fst r) <=? B)%Z).
 Proof.
-  intros HA HB HAr HBr Hl Hn. unfold keep_row. cbv zeta. rewrite HA, HB.
+  intros HA HB HAr HBr Hl Hn. unfold keep_row_legacy. cbn [start_or_0]. rewrite HA, HB.
   change FloatBase.Z2F with FloatFacts.Z2F.
   rewrite (Z2F_leb _ _ HAr Hl), (Z2F_leb _ _ Hn HBr). reflexivity.
 Qed.
@@ -576,14 +904,11 @@ Qed.
 (* ------------------------------------------------------------------------------------------ *)
 (** * W4: no limits *)
 
-Lemma Prim2B_zero : Prim2B 0%float = B754_zero false.
-Proof. change 0%float with zero. rewrite zero_equiv, Prim2B_B2Prim. reflexivity. Qed.
-
-Lemma mul_zero_l (fs : PrimFloat.float) : finite fs = true ->
-  finite (0 * fs)%float = true /\ FR (0 * fs)%float = 0%R.
+Lemma mul_zero_r (fs : PrimFloat.float) : finite fs = true ->
+  PrimFloat.is_finite (fs * 0)%float = true.
 Proof.
-  unfold finite, FR. intros Ffs. rewrite mul_equiv, Prim2B_zero.
-  destruct (Prim2B fs) as [s|s| |s m e He]; try discriminate Ffs; cbn; split; reflexivity.
+  unfold finite. intros Ffs. rewrite is_finite_equiv, mul_equiv, Prim2B_zero.
+  destruct (Prim2B fs) as [s|s| |s m e He]; try discriminate Ffs; reflexivity.
 Qed.
 
 (** x * 0 is a zero or NaN, never a non-zero finite number: the offset is 0 for every fs *)
@@ -615,46 +940,66 @@ Lemma F2Z_round_0 : F2Z_round 0%float = 0%Z.
 Proof. reflexivity. Qed.
 
 Lemma limit_offset_none fs reset : limit_offset fs None reset = 0%Z.
-Proof. unfold limit_offset. destruct reset; [apply F2Z_round_mul_0|reflexivity]. Qed.
+Proof. unfold limit_offset. cbn [start_or_0]. destruct reset; [apply F2Z_round_mul_0|reflexivity]. Qed.
 
-Lemma zero_leb_Z2F (fs : PrimFloat.float) z : finite fs = true -> (0 <= z < 2 ^ 53)%Z ->
-  ((0 * fs) <=? FloatFacts.Z2F z)%float = true.
+Lemma zero_leb_time (fs : PrimFloat.float) z : finite fs = true -> (0 < FR fs)%R -> (0 <= z < 2 ^ 53)%Z ->
+  finite (FloatFacts.Z2F z / fs)%float = true ->
+  (0 <=? FloatFacts.Z2F z / fs)%float = true.
 Proof.
-  intros Ffs Hz. destruct (mul_zero_l fs Ffs) as (F0 & V0).
+  intros Ffs Hfs Hz Fq.
   assert (Ha : (Z.abs z < 2 ^ 53)%Z) by (rewrite Z.abs_eq; lia).
-  destruct (Z2F_exact z Ha) as (Fz & Vz).
-  rewrite (leb_R _ _ F0 Fz), V0, Vz. apply Rle_bool_true. apply IZR_le. lia.
+  rewrite (leb_R _ _ finite_zero Fq), FR_zero, (time_FR fs z Ffs Hfs Ha Fq).
+  apply Rle_bool_true. rewrite <- rnd64_0. apply rnd64_le.
+  apply Rmult_le_pos; [apply IZR_le; lia|]. apply Rlt_le, Rinv_0_lt_compat, Hfs.
 Qed.
 
-(** without limits the table is filtered by 0 * fs <= s_last only, and never shifted *)
+(** without limits the table is filtered by 0 <= fl(s_last / fs) only, and never shifted *)
 Theorem limit_df_none_partial (rows : list wrowX) fs reset :
-  in_range fs 0 infinity = true ->
+  limit_fs_ok fs = true -> finite fs = true ->
   limit_df rows fs None None reset
-  = Ok (filter (fun r => ((0 * fs) <=? FloatBase.Z2F (s_last (fst r)))%float) rows).
+  = Ok (filter (fun r => (0 <=? FloatBase.Z2F (s_last (fst r)) / fs)%float) rows).
 Proof.
-  intros Hfs. unfold limit_df. rewrite Hfs. cbn [negb limits_ok]. cbv zeta.
-  assert (Hk : filter (keep_row fs None None) rows
-               = filter (fun r : wrowX => ((0 * fs) <=? FloatBase.Z2F (s_last (fst r)))%float) rows).
-  { apply filter_ext. intros r. unfold keep_row. cbv zeta. apply andb_true_r. }
-  rewrite Hk. destruct reset; [|reflexivity].
-  rewrite F2Z_round_mul_0. f_equal. apply map_id_ext. intros [s x]. cbn [fst snd].
-  rewrite shift_srow_0. reflexivity.
+  intros Hfs Ffs. unfold limit_df. apply limit_df_with_ok.
+  split; [exact Hfs|]. split; [reflexivity|]. split.
+  - intros _. cbn [start_or_0]. apply mul_zero_r. exact Ffs.
+  - rewrite limit_offset_none.
+    assert (Hk : filter (keep_row fs None None) rows
+                 = filter (fun r : wrowX => (0 <=? FloatBase.Z2F (s_last (fst r)) / fs)%float) rows).
+    { apply filter_ext. intros r. unfold keep_row. cbn [start_or_0]. apply andb_true_r. }
+    rewrite Hk. symmetry. apply map_id_ext. intros [s x]. cbn [fst snd].
+    rewrite shift_srow_0. reflexivity.
 Qed.
 
-(** ... which is the whole table for a finite sampling rate and non-negative sample indices *)
+(** ... which is the whole table for a finite positive sampling rate and non-negative sample indices
+    (with finite time stamps) *)
 Theorem limit_df_none (rows : list wrowX) fs reset :
-  in_range fs 0 infinity = true -> finite fs = true ->
-  (forall r, In r rows -> (0 <= s_last (fst r) < 2 ^ 53)%Z) ->
+  limit_fs_ok fs = true -> finite fs = true ->
+  (forall r, In r rows -> (0 <= s_last (fst r) < 2 ^ 53)%Z /\
+                          finite (FloatBase.Z2F (s_last (fst r)) / fs)%float = true) ->
   limit_df rows fs None None reset = Ok rows.
 Proof.
-  intros Hfs Ffs Hrows. rewrite (limit_df_none_partial rows fs reset Hfs). f_equal.
+  intros Hfs Ffs Hrows. rewrite (limit_df_none_partial rows fs reset Hfs Ffs). f_equal.
+  assert (Hpos : (0 < FR fs)%R) by (apply (limit_fs_ok_finite_pos fs Ffs); exact Hfs).
   induction rows as [|r rows IH]; [reflexivity|].
   cbn [filter]. change FloatBase.Z2F with FloatFacts.Z2F.
-  rewrite (zero_leb_Z2F fs _ Ffs (Hrows r (or_introl eq_refl))).
+  destruct (Hrows r (or_introl eq_refl)) as (Hr & Fr).
+  rewrite (zero_leb_time fs _ Ffs Hpos Hr Fr).
   f_equal. apply IH. intros r' Hr'. apply Hrows. right. exact Hr'.
 Qed.
 
 End KeepProofs.
+
+(* ------------------------------------------------------------------------------------------ *)
+(** * F16 refuted on the pre-repair row test: at fs = 100 the window starts on the time stamp of sample 7
+    (the double 0x1.1eb851eb851ecp-4 = fl(7 / 100), whose product with 100 rounds to 7.000000000000001); a
+    cycle spanning samples [7, 10] — entirely inside the window — was dropped, and is kept now *)
+Theorem legacy_boundary_cycle_refuted {X : Type} (x : X) (c zr zd lz : Z) :
+  let t7 := 0x1.1eb851eb851ecp-4%float in
+  let r : @wrow X := (Build_srow c 7 10 zr zd lz, x) in
+  (FloatBase.Z2F 7 / 100 =? t7)%float = true /\
+  keep_row_legacy 100 (Some t7) None r = false /\
+  keep_row 100 (Some t7) None r = true.
+Proof. vm_compute. repeat split. Qed.
 
 (* ------------------------------------------------------------------------------------------ *)
 (** * W8: non-vacuity (all by computation).  Literals in hexadecimal to avoid parser rounding
@@ -708,17 +1053,55 @@ Proof. vm_compute. reflexivity. Qed.
 
 Example ex_limit_df_bad_fs : limit_df tbl (-1) (Some f02) (Some f061) true = Err EValue.
 Proof. vm_compute. reflexivity. Qed.
+(* a sampling rate of exactly 0 (either sign) is rejected; it used to be accepted (F17) *)
+Example ex_limit_df_fs_zero :
+  (limit_df tbl 0 (Some f02) (Some f061) true, limit_df tbl (-0) None None false) = (Err EValue, Err EValue).
+Proof. vm_compute. reflexivity. Qed.
+Example ex_limit_df_legacy_fs_zero : limit_df_legacy tbl 0 (Some f02) (Some f061) false = Ok [].
+Proof. vm_compute. reflexivity. Qed.
 
-(* why limit_df_none needs its hypotheses: NaN and +inf pass the range check of fs, and then
-   0 * fs is NaN, so every row is dropped; a negative s_last is dropped for any fs *)
-Example ex_in_range_nan_inf : (in_range nan 0 infinity, in_range infinity 0 infinity) = (true, true).
+(* why limit_df_none needs its hypotheses: NaN and +inf pass the test of fs.  With a NaN every time stamp is
+   NaN and every row is dropped (and int(round(NaN)) raises ValueError when the indices are reset); with +inf
+   every time stamp is 0, so without limits everything is kept, but inf * 0 is NaN again; inf * start for a
+   positive start is inf and int() raises OverflowError.  A negative s_last is dropped for any fs *)
+Example ex_in_range_nan_inf : (limit_fs_ok nan, limit_fs_ok infinity, limit_fs_ok neg_infinity) = (true, true, false).
 Proof. vm_compute. reflexivity. Qed.
-Example ex_limit_df_none_nan : limit_df tbl nan None None true = Ok [].
+Example ex_limit_df_none_nan :
+  (limit_df tbl nan None None true, limit_df tbl nan None None false) = (Err EValue, Ok []).
 Proof. vm_compute. reflexivity. Qed.
-Example ex_limit_df_none_inf : limit_df tbl infinity None None false = Ok [].
+Example ex_limit_df_none_inf :
+  (limit_df tbl infinity None None false, limit_df tbl infinity None None true,
+   limit_df tbl infinity (Some f02) None true, limit_df tbl infinity (Some f02) None false)
+  = (Ok tbl, Err EValue, Err EOther, Ok []).
+Proof. vm_compute. reflexivity. Qed.
+Example ex_limit_df_start_inf :
+  (limit_df tbl 100 (Some infinity) None true, limit_df tbl 100 (Some infinity) None false) = (Err EOther, Ok []).
 Proof. vm_compute. reflexivity. Qed.
 Example ex_limit_df_none_negative : limit_df [mk 2 (-1) 5 0 3 (-2) 0] 100 None None false = Ok [].
 Proof. vm_compute. reflexivity. Qed.
+
+(* F16: at fs = 100 the time stamp of sample 7 is the double 0x1.1eb851eb851ecp-4 = fl(7 / 100), and
+   fl(fl(7 / 100) * 100) = 7.000000000000001 > 7.  A cycle spanning samples [7, 10] lies entirely inside the
+   window that starts at the time stamp of sample 7; the pre-repair test dropped it, the repaired one keeps it.
+   (In the other direction, fl(fl(29 / 100) * 100) = 28.999999999999996 < 29: a window STOPPING on the time
+   stamp of sample 29 lost the cycle ending there.) *)
+Definition t7 : PrimFloat.float := 0x1.1eb851eb851ecp-4%float.
+Definition t29 : PrimFloat.float := 0x1.28f5c28f5c28fp-2%float.
+Example ex_t7_is_a_time_stamp : ((7 / 100)%float =? t7)%float = true /\ ((29 / 100)%float =? t29)%float = true /\
+  (7 <? t7 * 100)%float = true /\ (t29 * 100 <? 29)%float = true.
+Proof. vm_compute. repeat split. Qed.
+Example ex_legacy_boundary_cycle :
+  keep_row_legacy 100 (Some t7) None (mk 8 7 10 7 9 5 0) = false /\
+  keep_row 100 (Some t7) None (mk 8 7 10 7 9 5 0) = true /\
+  keep_row_legacy 100 None (Some t29) (mk 25 20 29 22 27 18 0) = false /\
+  keep_row 100 None (Some t29) (mk 25 20 29 22 27 18 0) = true.
+Proof. vm_compute. repeat split. Qed.
+Example ex_limit_df_boundary_cycle :
+  limit_df [mk 8 7 10 7 9 5 0; mk 15 10 20 12 17 9 1] 100 (Some t7) None true
+  = Ok [mk 1 0 3 0 2 (-2) 0; mk 8 3 13 5 10 2 1] /\
+  limit_df_legacy [mk 8 7 10 7 9 5 0; mk 15 10 20 12 17 9 1] 100 (Some t7) None true
+  = Ok [mk 8 3 13 5 10 2 1].
+Proof. vm_compute. split; reflexivity. Qed.
 
 (* int(): truncation toward zero, including the classic int(100 * 0.29) = 28 *)
 Example ex_trunc :
